@@ -400,7 +400,15 @@ class Party(sut.BaseAlgorithm):
             else:
                 how = "unknown_station"
                 L = len(next(iter(sched.values())))
-                sched["NO-SUCH-STATION"] = [0] * L
+                rw_ = sub(self.sc["seed"], "unknown_id", fault["at_call"])
+                ghost = "NO-SUCH-STATION"
+                if rw_.random() < 0.4:
+                    # an id that differs from a registered one only by surrounding whitespace / letter case: still not a station
+                    base_ = rw_.choice(sorted(self.order))
+                    cand_ = rw_.choice([base_ + " ", " " + base_, base_ + "\n", base_.lower(), base_.upper(), base_ + "\t"])
+                    if cand_ not in self.order:
+                        ghost = cand_
+                sched[ghost] = [rw_.choice([0, 6, 16])] * L
             rec["malformed"] = how
             rec["digest_before"] = ctx.state_digest()
             ctx.fired("malformed:" + how)
